@@ -124,15 +124,25 @@ def quote_fn(facts):
 
 def vec_width(facts, f):
     """load/store width of the vector type used by CopyAndGetEscapMask in f's namespace"""
-    ns = f.qn.rsplit('::', 1)[0]
-    for g in facts.functions:
-        if g.short == 'CopyAndGetEscapMask' and g.qn.startswith(ns):
-            for bid, i, s, e in g.walk():
-                if e.get('k') == 'ctor':
-                    for key, w in LOAD_WIDTH.items():
-                        if w and e.get('cls', '').endswith(key):
-                            return w
-    return None
+    # by role: the vector loads in f itself and in the helpers it calls (the copy-and-mask helper, whatever its name)
+    best = None
+    todo = [f]
+    seen = set()
+    while todo:
+        g = todo.pop()
+        if g.id in seen or len(seen) > 12:
+            continue
+        seen.add(g.id)
+        for bid, i, s, e in g.walk():
+            if e.get('k') == 'ctor':
+                for key, w in LOAD_WIDTH.items():
+                    if w and e.get('cls', '').endswith(key):
+                        best = max(best or 0, w)
+            if e.get('k') == 'call' and e.get('cid') is not None and g is f:
+                h = facts.by_id.get(e['cid'])
+                if h is not None and h.file == f.file:
+                    todo.append(h)
+    return best
 
 
 def clause_bc(facts, rep, max_n):
@@ -421,16 +431,35 @@ def run(rep, tier):
     for cfg, san in configs:
         facts = get_facts(cfg)
         rep.unit(facts)
-        m = clause_a(facts, rep)
-        clause_bc(facts, rep, m)
-        clause_de(facts, rep, san)
-        clause_f(facts, rep)
+        m = None
+        for cl_ in (lambda: clause_a(facts, rep), lambda: clause_bc(facts, rep, m), lambda: clause_de(facts, rep, san), lambda: clause_f(facts, rep)):
+            try:
+                r_ = cl_()
+                if m is None and r_ is not None:
+                    m = r_
+            except AnalysisBroken as ex:
+                rep.broken.append(str(ex))       # the other clauses and the evaluation of Quote still run
         # the escape mask is built with `v < 0x20` on unsigned byte vectors: the wrapper operators must be unsigned (shared with C15)
         from . import c15
         c15.clause_h(facts, rep)
+    # Quote itself, byte by byte (sv/quoteeval.py): every byte value around the vector blocks, special bytes at every
+    # position, the source ending at every small distance from the end of its page (next page unmapped), stores inside the
+    # serializer's reservation - in every configuration of this tier (incl. the sanitizer builds and dynamic dispatch)
+    from .. import quoteeval
+    for cfg, san in configs:
+        try:
+            quoteeval.clause(get_facts(cfg), rep, tier)
+        except AnalysisBroken as ex:
+            rep.broken.append(str(ex))
+    # the shape rules on Quote / DoEscape (named locals src / nb / tmp_src, the tail mask, the vector loop) are decided
+    # together with that evaluation
+    for r_ in ('E3.bounce-copy', 'E3.page-guard', 'E3.tail-range', 'E5.tail-mask', 'E5.vector-loop', 'E2.escape-peek', 'E5.escape-copy', 'E5.length-bound'):
+        rep.corroborate(r_, 'E5.quote-eval')
+    for pre_ in ('C09.d:', 'C09.f:', 'C09.c: vector width', 'C09.c: DoEscape copy width', 'C09.a: the continue / return decision', 'C09.a: the decision of DoEscape'):
+        rep.corroborate_floor(pre_, 'E5.quote-eval')
     rep.trust('clang 14 front end and constant evaluator', 'vector load/store widths in sv/primitives.py', 'page size 4096 (the value of PAGE_SIZE in quote.inc.h)')
     rep.assumptions += [
         'decides the escape tables, the length bound and reserve formula, the tail guard over every (page offset, tail length) pair in both macro branches, bounce buffer size and tail mask',
         'DoEscape never reads the source cursor without a remaining byte (entry contract: Quote calls it on a byte that needs escaping)',
-        'does NOT decide that the bytes between the quotes are exactly the escaped input (loop bookkeeping of MOVE_N_CHARS / DoEscape is value level)',
+        'E5.quote-eval decides that the bytes between the quotes decode back to the input for the enumerated strings (all byte values, special bytes at every position up to two blocks, page-end placements)',
     ]
